@@ -64,6 +64,17 @@ def code_section(rng, nblocks, tagbase, profile_blocks, dup_prob=0.25):
         else:
             b = profile_blocks.pop() if profile_blocks else "PUSH1 0x0 DUP1 ADD"
         used.append(b)
+        if rng.random() < 0.2:
+            # blocks with nothing to optimize (labels only, a lone jump): they reach the output as copies of what was read; every field of
+            # every item, the optional ones included, has to survive the copy
+            md = rng.choice([None, 1, 2])
+            lab = [{"begin": 3, "end": 9, "name": "tag", "source": 0, "value": str(tagbase + 50 + k)}, {"begin": 3, "end": 9, "name": "JUMPDEST", "source": 0}]
+            if rng.random() < 0.4:
+                lab.append({"begin": 4, "end": 8, "name": "JUMP", "source": 0, "jumpType": rng.choice(["[in]", "[out]"])})
+            for it in lab:
+                if md is not None:
+                    it["modifierDepth"] = md
+            items += lab
         if k > 0 or rng.random() < 0.5:
             b0 = rng.choice([0, 1, 17])
             items += [{"begin": b0, "end": b0 + rng.choice([0, 2]), "name": "tag", "source": 0, "value": str(tagbase + k)},
@@ -138,6 +149,8 @@ def handcrafted():
     md = [it("tag", "1", modifierDepth=1), it("JUMPDEST", modifierDepth=1), it("PUSH", "0", modifierDepth=1), it("PUSH", "5", modifierDepth=2),
           it("ADD", modifierDepth=1)] + [it(n, v, modifierDepth=1) for n, v in kinds] + [it("POP", modifierDepth=1) for _ in kinds] + \
          [it("PUSH", "0", modifierDepth=2), it("MSTORE", modifierDepth=1), it("PUSH [tag]", "1", modifierDepth=1), it("JUMP", None, jumpType="[out]", modifierDepth=1)]
+    md = md[:2] + [it("tag", "5", modifierDepth=1), it("JUMPDEST", modifierDepth=1), it("tag", "4", modifierDepth=2), it("JUMPDEST", modifierDepth=2),
+                   it("JUMP", None, jumpType="[in]", modifierDepth=1), it("tag", "6", modifierDepth=1), it("JUMPDEST", modifierDepth=1)] + md[2:]
     docs_.append(("handmod.json_solc", {"contracts": {"m.sol:M": {"asm": {".code": md, ".data": {"0": {".auxdata": "a2", ".code": list(md)}}}}},
                                         "version": "0.8.15+commit.e14f2714"}))
     # items the compiler generated itself carry no source location (-1/-1/-1): split instructions, tags, jumps and terminals of that kind
@@ -158,6 +171,11 @@ def handcrafted():
                  it("ISZERO"), it("PUSH [tag]", str(10 + 2 * k)), it("JUMPI"),
                  it("tag", str(11 + 2 * k)), it("JUMPDEST"), it("DUP1"), it(name, val), it("GAS"), it("PUSH", "4"), it("PUSH", "0"), it("ADD"), it("ADD"),
                  it("PUSH [tag]", str(11 + 2 * k)), it("JUMPI")]
+    # a block whose first instruction (after tag/JUMPDEST, or at the very start of a section) is a split instruction, with and without a value
+    for k, sp in enumerate([("ASSIGNIMMUTABLE", "%064x" % 0x1234), ("LOG1", None), ("CALLDATACOPY", None), ("GAS", None), ("ASSIGNIMMUTABLE", "%064x" % 7)]):
+        code += [it("tag", str(60 + k)), it("JUMPDEST"), it(*sp), it("PUSH", "1"), it("PUSH", "0"), it("ADD"), it("PUSH", "40"), it("MSTORE"),
+                 it("PUSH [tag]", str(60 + k)), it("JUMP", None, jumpType="[in]")]
+    code = [it("ASSIGNIMMUTABLE", "%064x" % 9), it("PUSH", "2"), it("PUSH", "0"), it("ADD"), it("POP"), it("PUSH [tag]", "10"), it("JUMP")] + code
     code += [it("STOP")]
     docs_.append(("handsplit.json_solc", {"contracts": {"s.sol:S": {"asm": {".code": code, ".data": {"0": {".auxdata": "a4", ".code": [dict(i) for i in code]}}}}},
                                           "version": "0.8.15+commit.e14f2714"}))
